@@ -111,6 +111,59 @@ class GovGen:
         self.tags.add("withdraw")
 
 
+def scripted_priority(g):
+    """concurrent proposals on one object with different priorities: a freeze (priority 2) is proposed, then a logout
+    (priority 3) of the same object pauses it; the paused proposal is withdrawn / voted on / left alone; the logout is
+    concluded either way; every proposal and the object are read after every step"""
+    r = g.r
+    c = r.choice(["c1", "c2", "c4"])
+    if r.random() < 0.5:
+        mod, obj, lo, hi = "appchain", c, f"appchain FreezeAppchain s:{c} s:reason", f"appchain LogoutAppchain s:{c} s:reason"
+    else:
+        obj = r.choice([x for x in ["c1:s1", "c1:s2", "c2:s1", "c2:s3", "c4:s1"] if x.startswith(c + ":")])
+        mod, lo, hi = "service", f"service FreezeService s:{obj} s:reason", f"service LogoutService s:{obj} s:reason"
+    lo_creator = r.choice(ADMINS)
+    g.submit(lo_creator, lo, mod + "-freeze", mod, obj)
+    lo_ref = g.props[-1][0]
+    for v in r.sample(ADMINS, r.choice([0, 0, 1])):
+        g.ops.append(f"q prop {lo_ref}")
+        g.ops.append(f"q obj role @{v}")
+        g.ops.append(f"block bvm {v} gov Vote s:{lo_ref} s:{r.choice(['approve', 'reject'])} s:r")
+        g.ops.append(f"q prop {lo_ref}")
+    g.submit(f"ca{c[1]}", hi, mod + "-logout", mod, obj)
+    hi_ref = g.props[-1][0]
+
+    def look():
+        g.ops.append(f"q prop {lo_ref}")
+        g.ops.append(f"q prop {hi_ref}")
+        g.ops.append(f"q obj {mod} {obj}")
+    look()
+    k = r.random()
+    if k < 0.5:
+        g.ops.append(f"block bvm {lo_creator} gov WithdrawProposal s:{lo_ref} s:reason")
+        g.tags.add("priority:paused-withdrawn")
+        look()
+    elif k < 0.75:
+        v = r.choice(ADMINS)
+        g.ops.append(f"q prop {lo_ref}")
+        g.ops.append(f"q obj role @{v}")
+        g.ops.append(f"block bvm {v} gov Vote s:{lo_ref} s:approve s:r")
+        g.tags.add("priority:vote-on-paused")
+        look()
+    ballot = r.choice(["approve", "reject", "reject"])
+    if r.random() < 0.2:
+        g.ops.append(f"block bvm ca{c[1]} gov WithdrawProposal s:{hi_ref} s:reason")
+        g.tags.add("priority:high-withdrawn")
+        look()
+    else:
+        for v in ["adm0", "adm1", "adm2"]:
+            g.ops.append(f"q prop {hi_ref}")
+            g.ops.append(f"q obj role @{v}")
+            g.ops.append(f"block bvm {v} gov Vote s:{hi_ref} s:{ballot} s:r")
+            look()
+        g.tags.add("priority:high-" + ballot)
+
+
 def gen_c15(rng, n, tier):
     import random as _r
     hs = []
@@ -118,6 +171,8 @@ def gen_c15(rng, n, tier):
         r = _r.Random(rng.getrandbits(64))
         g = GovGen(r)
         g.ops.append(f"world audit={r.choice([0, 0, 1])} price=1")
+        if r.random() < 0.2:
+            scripted_priority(g)
         g.propose()
         for _ in range(r.randint(6, 22)):
             k = r.random()
@@ -249,6 +304,19 @@ def mon_c15(h, obs):
                     exp = "err " + code
                 vsteps.append((line, exp, op))
         i += 1
+    tsteps, thits = table_steps(h, obs)
+    hits.extend(thits)
+    if tsteps:
+        try:
+            out = subprocess.run(core.model_cmd("govstep"), input="\n".join(x[0] for x in tsteps) + "\n", capture_output=True, text=True, timeout=60).stdout.splitlines()
+        except Exception as e:      # noqa: BLE001
+            out = []
+            hits.append(Hit("C15/model-driver-failed", str(e)))
+        for (line, exp, op), got in zip(tsteps, out):
+            if got.startswith("bad-"):
+                continue
+            if got != exp:
+                hits.append(Hit("C15/table-step-differs-from-model", f"real contract: `{exp}`; Lean proposal table: `{got}`; input `{line[:240]}`", detail=op))
     if vsteps:
         try:
             out = subprocess.run(core.model_cmd("govstep"), input="\n".join(x[0] for x in vsteps) + "\n", capture_output=True, text=True, timeout=60).stdout.splitlines()
@@ -258,13 +326,107 @@ def mon_c15(h, obs):
         for (line, exp, op), got in zip(vsteps, out):
             if got.startswith("bad-state"):
                 continue       # a strategy expression outside the modelled fragment
+            if exp == "err 2010000" and re.match(r"ok status=(approve|reject) ", got):
+                # the ballot concludes the proposal in both, but the object manager then refused the resulting transition
+                # (handleResult error -> GovernanceInternalErrCode): the whole vote transaction is reverted.  That refusal lies
+                # outside the ballot machine; that nothing changed is checked by C15/refused-vote-changed-proposal.
+                continue
             if got != exp:
                 hits.append(Hit("C15/vote-step-differs-from-model", f"real contract: `{exp}`; Lean ballot machine: `{got}`; input `{line[:200]}`", detail=op))
     return hits
 
 
+def table_steps(h, obs):
+    """Trace validation of the proposal TABLE (Bxh.GovTable): for every single-transaction block that submits a proposal,
+    casts a vote or withdraws a proposal about an appchain / service, with all proposals about that object read right before
+    and right after, returns (model input line, expected answer, description).  Also returns model-free hits: a refused
+    or non-concluding operation must leave every proposal of the object as it was."""
+    steps = list(zip(h.ops, obs))
+    order = {}        # obj -> refs in submission order
+    last = {}         # ref -> parsed proposal
+    seen = {}         # ref -> index of its latest observation
+    prev_block = -1
+    out, hits = [], []
+    n = len(steps)
+    i = 0
+    while i < n:
+        op, o = steps[i]
+        ws = op.split()
+        if ws[0] == "q" and ws[1] == "prop":
+            p = parse_prop(o)
+            if p is not None and p.get("typ") in ("appchain_mgr", "service_mgr"):
+                ref = ws[2]
+                if ref not in last:
+                    order.setdefault(p["obj"], []).append(ref)
+                last[ref] = p
+                seen[ref] = i
+        elif ws[0] in ("block", "restart"):
+            single = ws[0] == "block" and " | " not in op and len(ws) > 3 and ws[1] == "bvm"
+            if single:
+                m = mon_exec.BLK.match(o)
+                rc = m.group(2).split()[0] if m and m.group(2) else ""
+                ok = rc.startswith("S:")
+                # observations that follow, up to the next block
+                post = {}
+                j = i + 1
+                while j < n and steps[j][0].split()[0] not in ("block", "restart"):
+                    w2 = steps[j][0].split()
+                    if w2[0] == "q" and w2[1] == "prop":
+                        pp = parse_prop(steps[j][1])
+                        if pp is not None:
+                            post[w2[2]] = pp
+                    j += 1
+                kind, ref = None, None
+                if ws[3] == "gov" and ws[4] == "Vote":
+                    kind, ref = "vote", ws[5][2:]
+                elif ws[3] == "gov" and ws[4] == "WithdrawProposal":
+                    kind, ref = "withdraw", ws[5][2:]
+                elif ok:
+                    new = [r for r, pp in post.items() if r not in last and pp.get("typ") in ("appchain_mgr", "service_mgr")]
+                    if len(new) == 1:
+                        kind, ref = "submit", new[0]
+                obj = None
+                if kind == "submit":
+                    obj = post[ref]["obj"]
+                elif ref in last:
+                    obj = last[ref]["obj"]
+                if kind and obj is not None:
+                    refs = list(order.get(obj, []))
+                    fresh = all(seen.get(r, -1) > prev_block for r in refs) and all(r in post for r in refs)
+                    idx = {r: k for k, r in enumerate(refs)}
+                    locks_ok = all(last[r]["lock"] == "-" or last[r]["lock"] in idx for r in refs)
+                    if fresh and locks_ok and (kind == "submit" or ref in idx):
+                        ents = " ".join(f"{last[r]['obj']}/{last[r]['ev']}/{last[r]['status']}/{idx[last[r]['lock']] if last[r]['lock'] != '-' else '-'}" for r in refs)
+                        pre_s = [last[r]["status"] for r in refs]
+                        post_s = [post[r]["status"] for r in refs]
+                        mop = None
+                        if kind == "submit":
+                            mop = f"submit/{obj}/{post[ref]['ev']}"
+                            lk = post[ref]["lock"]
+                            exp_all = refs + [ref]
+                            exp = "ok " + ",".join(f"{post[r]['status']}:{(idx.get(post[r]['lock'], '?') if post[r]['lock'] != '-' else '-')}" for r in exp_all)
+                        elif kind == "withdraw" and ok:
+                            mop = f"withdraw/{idx[ref]}"
+                        elif kind == "vote" and ok and post[ref]["status"] in ("approve", "reject") and last[ref]["status"] == "proposed":
+                            mop = f"conclude/{idx[ref]}/{post[ref]['status']}"
+                        if mop is None:
+                            # refused, or a ballot that concludes nothing: nothing about the object may move
+                            if pre_s != post_s:
+                                hits.append(Hit("C15/table-changed-by-refused-or-open-step",
+                                                f"{op}: receipt {rc}; proposals {refs} went {pre_s} -> {post_s}", detail=op))
+                        else:
+                            if kind != "submit":
+                                exp = "ok " + ",".join(f"{post[r]['status']}:{(idx.get(post[r]['lock'], '?') if post[r]['lock'] != '-' else '-')}" for r in refs)
+                            out.append((f"tstep {mop} {ents}".rstrip(), exp, op))
+            prev_block = i
+        i += 1
+    return out, hits
+
+
 def tags_c15(h, obs):
     t = set()
+    for line, _, _ in table_steps(h, obs)[0]:
+        t.add("table-step:" + line.split()[1].split("/")[0])
     for op, o in zip(h.ops, obs):
         if op.startswith("q prop"):
             p = parse_prop(o)
@@ -302,6 +464,8 @@ class LcGen(GovGen):
     def __init__(self, r):
         super().__init__(r)
         self.idx = {}
+        self.dyn = []          # services whose registration was proposed in this history
+        self.pending = []      # proposals left open: (ref, module, object)
 
     def observe(self, svc):
         c = svc.split(":")[0]
@@ -311,12 +475,23 @@ class LcGen(GovGen):
     def ibtp(self):
         r = self.r
         f, t = r.sample(SVC, 2)
-        if r.random() < 0.1:
+        if self.dyn and r.random() < 0.4:
+            # a service registered during this history as source or destination
+            if r.random() < 0.5:
+                f = r.choice(self.dyn)
+            else:
+                t = r.choice(self.dyn)
+            if f == t:
+                t = "c2:s1" if f != "c2:s1" else "c4:s1"
+            self.tags.add("ibtp-probe:registered-service")
+        elif r.random() < 0.1:
             t = r.choice(["c1:s9", "c9:s1"])          # a destination service that does not exist
         i = self.idx.get((f, t), 1)
         self.observe(f)
         self.observe(t)
         self.ops.append(f"block ibtp ca{f[1]} {f} {t} {i} req 0 - ok")
+        self.observe(f)
+        self.observe(t)
         self.idx[(f, t)] = i + 1      # a rejected request makes the next index wrong: that request is then rejected for the index, fine
         self.ops.append(f"q status 1356:{f}-1356:{t}-{i}")
         self.tags.add("ibtp-probe")
@@ -336,10 +511,22 @@ class LcGen(GovGen):
             who = f"ca{c[1]}" if ev == "LogoutAppchain" else r.choice(ADMINS)
             self.submit(who, f"appchain {ev} s:{c} s:reason", "appchain-" + ev[:-8].lower(), "appchain", c)
         else:
+            c = r.choice(["c1", "c1", "c2", "c4"])
             sid = f"s{r.randint(5, 9)}"
-            self.submit("ca1", f"service RegisterService s:c1 s:{sid} s:svc-c1-{sid} s:CallContract s:intro u:1 s:~ s:details s:reason",
-                        "service-register", "service", f"c1:{sid}")
+            self.submit(f"ca{c[1]}", f"service RegisterService s:{c} s:{sid} s:svc-{c}-{sid} s:CallContract s:intro u:1 s:~ s:details s:reason",
+                        "service-register", "service", f"{c}:{sid}")
+            if f"{c}:{sid}" not in self.dyn:
+                self.dyn.append(f"{c}:{sid}")
         ref, kind, mod, obj = self.props[-1]
+        if mod == "service" and kind == "service-register" and r.random() < 0.5:
+            # leave the registration open: it is concluded later, after other governance operations went through
+            self.pending.append((ref, mod, obj))
+            self.tags.add("proposal-left-open")
+            return
+        self.conclude(ref, mod, obj)
+
+    def conclude(self, ref, mod, obj):
+        r = self.r
         # conclude it (mostly): the super admin and two others vote the same way, sometimes the vote is left open
         ballot = r.choice(["approve", "approve", "reject"])
         voters = ["adm0", "adm1", "adm2", "adm3"]
@@ -348,10 +535,66 @@ class LcGen(GovGen):
             self.ops.append(f"block bvm {v} gov Vote s:{ref} s:{ballot} s:r")
             self.ops.append(f"q prop {ref}")
             self.ops.append(f"q obj {mod} {obj}")
+            self.ops.append(f"q obj appchain {obj.split(':')[0]}")
             if mod == "appchain":
-                for s in SVC:
+                for s in SVC + self.dyn:
                     if s.startswith(obj + ":"):
                         self.ops.append(f"q obj service {s}")
+                        self.ops.append(f"q obj appchain {obj}")
+
+    def vote_all(self, ref, mod, obj, ballot):
+        for v in ["adm0", "adm1", "adm2"]:
+            self.ops.append(f"block bvm {v} gov Vote s:{ref} s:{ballot} s:r")
+        self.ops.append(f"q prop {ref}")
+        self.ops.append(f"q obj {mod} {obj}")
+        self.ops.append(f"q obj appchain {obj.split(':')[0]}")
+
+    def scripted_overlap(self):
+        """two proposals about one appchain overlap: an operation on a service (registration, freeze, activation, logout) is
+        proposed, then an operation on the owning appchain is proposed and concluded, then the first is concluded; the
+        service is probed as source and as destination afterwards"""
+        r = self.r
+        c = r.choice(["c1", "c2", "c4"])
+        first = r.choice(["register", "register", "FreezeService", "ActivateService", "LogoutService"])
+        if first == "register":
+            sid = f"s{r.randint(5, 9)}"
+            svc = f"{c}:{sid}"
+            self.submit(f"ca{c[1]}", f"service RegisterService s:{c} s:{sid} s:svc-{c}-{sid} s:CallContract s:intro u:1 s:~ s:details s:reason",
+                        "service-register", "service", svc)
+            if svc not in self.dyn:
+                self.dyn.append(svc)
+        else:
+            svc = r.choice([x for x in SVC if x.startswith(c + ":")])
+            who = f"ca{c[1]}" if first == "LogoutService" else r.choice(ADMINS)
+            self.submit(who, f"service {first} s:{svc} s:reason", "service-" + first[:-7].lower(), "service", svc)
+        p1 = self.props[-1]
+        ev = r.choice(["FreezeAppchain", "FreezeAppchain", "LogoutAppchain", "ActivateAppchain"])
+        who = f"ca{c[1]}" if ev == "LogoutAppchain" else r.choice(ADMINS)
+        self.submit(who, f"appchain {ev} s:{c} s:reason", "appchain-" + ev[:-8].lower(), "appchain", c)
+        p2 = self.props[-1]
+        order = [(p2, r.choice(["approve", "approve", "reject"])), (p1, r.choice(["approve", "approve", "reject"]))]
+        if r.random() < 0.25:
+            order.reverse()
+        for (ref, kind, mod, obj), ballot in order:
+            self.vote_all(ref, mod, obj, ballot)
+            self.observe(svc)
+        self.tags.add(f"overlap:{first}+{ev}")
+        other = "c2:s1" if c != "c2" else "c4:s1"
+        for f, t in ((svc, other), (other, svc)):
+            i = self.idx.get((f, t), 1)
+            self.observe(f)
+            self.observe(t)
+            self.ops.append(f"block ibtp ca{f[1]} {f} {t} {i} req 0 - ok")
+            self.observe(f)
+            self.observe(t)
+            self.idx[(f, t)] = i + 1
+
+    def late_vote(self):
+        if not self.pending:
+            return self.govern()
+        ref, mod, obj = self.pending.pop(self.r.randrange(len(self.pending)))
+        self.tags.add("late-conclusion")
+        self.conclude(ref, mod, obj)
 
 
 def gen_c16(rng, n, tier):
@@ -364,16 +607,22 @@ def gen_c16(rng, n, tier):
         g.ops.append(f"world audit={r.choice([0, 0, 1])} price=1")
         for s in SVC:
             g.observe(s)
+        if r.random() < 0.25:
+            for _ in range(r.randint(0, 2)):
+                g.govern()
+            g.scripted_overlap()
         for _ in range(r.randint(5, 14)):
             k = r.random()
             if k < 0.5:
                 g.ibtp()
-            elif k < 0.9:
+            elif k < 0.8:
                 g.govern()
+            elif k < 0.9:
+                g.late_vote()
             else:
                 g.ops.append("restart")
                 g.tags.add("restart")
-        for s in SVC:
+        for s in SVC + g.dyn:
             g.observe(s)
         hs.append(History(g.ops, tags=g.tags))
     return hs
@@ -427,6 +676,16 @@ def mon_c16(h, obs):
                                     f"{kind} {oid} went {old} -> {new}, which is no transition of its state machine", detail=steps[i - 1][0] if i else op))
             status[key] = new
             blocks_since[key] = 0
+            # cascade, whenever a service and its appchain were both observed since the last block: a frozen / logged-out
+            # appchain has no usable service
+            if kind in ("appchain", "service"):
+                ca_id = oid.split(":")[0]
+                pairs = [(ca_id, oid)] if kind == "service" else [(ca_id, k2[1]) for k2 in status if k2[0] == "service" and k2[1].split(":")[0] == ca_id]
+                for c_id, s_id in pairs:
+                    if blocks_since.get(("appchain", c_id), 9) == 0 and blocks_since.get(("service", s_id), 9) == 0:
+                        ca, ss = status.get(("appchain", c_id)), status.get(("service", s_id))
+                        if ca in ("frozen", "forbidden") and ss in set(avail.get("service", ["available"])):
+                            hits.append(Hit("C16/service-usable-on-unusable-appchain", f"appchain {c_id} is {ca} but its service {s_id} is {ss}", detail=op))
         if ws[0] == "block" and len(ws) > 2 and ws[1] == "ibtp" and " | " not in op:
             m = mon_exec.BLK.match(o)
             if not m or not m.group(2):
